@@ -457,7 +457,10 @@ def gen_case(rng, kind, faults, panics=False):
     except Exception:
         guess = 3
     prog = g.program(pipe, guess)
-    return {"component": "pipes", "cfg": {"kind": kind, "pipe": pipe, "prog": prog}, "ops": []}
+    cfg = {"kind": kind, "pipe": pipe, "prog": prog}
+    if kind == "stream" and rng.random() < 0.3:
+        cfg["valsrc"] = True      # the sources are by-value structs of funcs: streams that cannot be compared with ==
+    return {"component": "pipes", "cfg": cfg, "ops": []}
 
 
 def erase_faults(case):
